@@ -362,6 +362,7 @@ def run_impl(case):
             step["ops"], step["op_problems"] = cv.group_ops(prims)
             step["choices"] = cv.take_choices()
             step["snap"] = snapshot(state)
+            step["caught"], cv.REC.notes = cv.REC.notes, []
             step["vm"] = vm_digest(state)
             step["clock"] = int(cv.REC.clock)
             out = []
@@ -701,6 +702,11 @@ def _latent_regions(obs):
     is not violated: e.g. a stopped parent still listing a cleaned-up child. Model (repaired behaviour) and code differ there."""
     out = set()
     for st in obs.get("steps", []):
+        # the interpreter itself caught a KeyError on a uid: a reference to a deleted action / flow was followed inside
+        # this event (the dangling reference may be gone again by the time the state is observed)
+        for cls, msg in st.get("caught", []):
+            if cls == "KeyError" and cv.UID_RE.search(msg):
+                out.add("dangling-scope-action")
         sn = st.get("snap")
         if not sn or "exc" in st:
             continue
@@ -728,7 +734,8 @@ def signature(case, obs, msg):
             return "index-name-stale:shared-context"
         return s
     lat = obs.get("latent") or []
-    if lat and msg and "CoreVM" in msg:
+    if lat and msg:
+        # a correspondence difference (no oracle finding) in a case where the defect of an open finding is visible
         return lat[0]
     return None
 
